@@ -1,5 +1,6 @@
 /* block and key may live in one object (hasher_merge_cv_stack passes &self->cv_stack[..], self->key) */
 void harness(void) {
+  VERIF_PROLOGUE();
   blake3_hasher h; /* nondeterministic contents */
   uint32_t other_key[8];
   uint8_t other_block[64];
